@@ -48,7 +48,7 @@ class Acc:
     """Per-shard accumulator (merged in the parent)."""
 
     MAX_OUTCOMES = 400000
-    MAX_VIOL_PER_SUB = 60
+    MAX_VIOL_PER_SUB = 6
     MAX_SAMPLES = 3
 
     def __init__(self, deadline=None):
@@ -141,7 +141,7 @@ def load_known():
 
 
 def write_replay(prop, v):
-    d = os.path.join(VERIF, "replays", prop)
+    d = os.path.join(os.environ.get("VERIF_OUT_DIR", VERIF), "replays", prop)
     os.makedirs(d, exist_ok=True)
     name = hashlib.sha1(v["sig"].encode()).hexdigest()[:16] + ".json"
     path = os.path.join(d, name)
@@ -239,8 +239,9 @@ def run_check(check, tier, seed):
         n_new += 1
         exit_code = 1
         print("VIOLATION property=%s replay=%s" % (prop, path))
-        print("  sub-oracle=%s signature=%s" % (v["sub"], sig))
-        print("  detail: %s" % v["detail"][:600].replace("\n", "\n          "))
+        if n_new <= 12:
+            print("  sub-oracle=%s signature=%s" % (v["sub"], sig))
+            print("  detail: %s" % v["detail"][:600].replace("\n", "\n          "))
 
     wall = time.time() - t0
     cov = {
@@ -278,8 +279,9 @@ def run_check(check, tier, seed):
         "wall_s": round(wall, 2),
         "violations": n_new,
     }
-    os.makedirs(os.path.join(VERIF, "evidence"), exist_ok=True)
-    with open(os.path.join(VERIF, "evidence", prop + ".json"), "w") as f:
+    evdir = os.path.join(os.environ.get("VERIF_OUT_DIR", VERIF), "evidence")
+    os.makedirs(evdir, exist_ok=True)
+    with open(os.path.join(evdir, prop + ".json"), "w") as f:
         json.dump(ev, f, indent=1, sort_keys=True, default=repr)
         f.write("\n")
     print("%s tier=%s seed=%d evaluations=%d nontrivial=%d outcomes=%d states=%d transitions=%d "
